@@ -133,6 +133,42 @@ class Inconclusive(Exception):
     pass
 
 
+def run_sigfork(d, c):
+    """fork() from a signal handler interrupting the CALLING thread at event k of its own call: parent and child both finish that call"""
+    out = d.out
+    ops = [drv.op("x", out + "/log"), drv.op("S", 0, "pty")] + gen.std_sinks(out)[:5] + [drv.op("C", ini_for(out, c["okind"], c["fmt"])),
+           drv.op_exec("e", b"/bin/warm", [b"warmup"], [], ret=-1, err=2), drv.op("V", c["k"]),
+           drv.op_exec("e", b"/bin/S", [b"interrupted-call"], [], ret=-1, err=2),
+           drv.op_exec("e", b"/bin/P", [b"parent-after"], [], ret=-1, err=2), drv.op("L"), drv.op("G")]
+    res = d.scenario(ops)
+    reports = d.sanitizer_reports()
+    what = "output %s, format %r, fork() in a signal handler that interrupts the calling thread after event k=%d of its own call" % (c["okind"], c["fmt"], c["k"])
+    J = res.of("j")
+    if res.timedout or not J:
+        raise Failure("scenario did not complete (%s)" % what, {"result": res.describe()}, key="hang")
+    status, parked = J[0].f[3].decode(), int(J[0].f[1])
+    if status == "notparked":
+        raise Skip("the calling thread did not reach event k")
+    if status in ("deadlock", "timeout-futex") or status.startswith("timeout-blocked") or res.of("d"):
+        raise Failure("child of a fork() taken inside the interrupted call cannot finish that call: %s (%s)" % (status, what), None, key="deadlock")
+    if status == "timeout":
+        raise Inconclusive("child did not finish within 10 s but is not asleep (%s)" % what)
+    if status != "ok" or not res.clean:
+        raise Failure("child of a fork() taken inside the interrupted call ended abnormally: %s (%s)" % (status, what),
+                      {"result": res.describe(), "sanitizer": [r[:1500] for r in reports[:1]]}, key="abnormal")
+    if len(res.of("c")) != 1:
+        raise Failure("child did not complete the interrupted call (%s)" % what, None, key="child-exec")
+    if len(res.of("R")) != 4:
+        raise Failure("%d of 4 calls reached the real exec (warm-up, interrupted call in parent and child, parent's next) (%s)" % (len(res.of("R")), what), None, key="count")
+    if c["okind"] == "file":
+        lines = (drv.parse_dump(res.of("G")[-1])["log"][2] or b"").split(b"\n")[:-1]
+        n = sum(1 for l in lines if l.endswith(b"interrupted-call"))
+        # two records when the fork came before the record was written (parent and child each write it), one when it came after
+        if n not in (1, 2) or sum(1 for l in lines if l.endswith(b"parent-after")) != 1:
+            raise Failure("records after a fork() inside the interrupted call: %d for that call (1 or 2 expected) (%s)" % (n, what), {"records": lines[:6]}, key="records")
+    return True
+
+
 def rc_safe(d):
     def f(cc):
         try:
@@ -304,6 +340,37 @@ def worker(args):
     for job in jobs:
         okind, fmt, depth, real = job[:4]
         opt = job[4] if len(job) > 4 else {}
+        if opt.get("sigfork"):
+            d = driver("ts-plain")
+            try:
+                events, _ = run_case(d, {"okind": okind, "fmt": fmt, "k": 0, "depth": 1, "real": False})
+            except (Failure, Inconclusive, Skip):
+                continue
+            for k in range(1, events + 1):
+                c = {"okind": okind, "fmt": fmt, "k": k, "sigfork": True}
+                try:
+                    run_sigfork(d, c)
+                    local.count((k, okind, fmt, "sigfork"), ["out:" + okind, "fork-in-signal-handler-on-the-calling-thread"], sample=c)
+                except Skip:
+                    local.count(None, ["skipped:not-parked"])
+                except Inconclusive as e:
+                    local.inconclusive.append(str(e)[:300])
+                except Failure as f:
+                    local.count((k, okind, fmt, "sigfork"), ["out:" + okind, "violating"], sample=c)
+                    if local.is_known(f.key):
+                        local.known_hit(f.key, f.what)
+                    elif not fails:
+                        n = 1
+                        for _ in range(2):
+                            try:
+                                run_sigfork(d, c)
+                            except Failure:
+                                n += 1
+                            except (Skip, Inconclusive):
+                                pass
+                        if n == 3:
+                            fails.append({"case": c, "what": f.what, "observed": f.observed, "expected": None})
+            continue
         naux, warm, variant = opt.get("naux", 0), opt.get("warm", True), opt.get("variant", "ts-plain")
         reconf = opt.get("reconf", False)
         d = driver(variant)
@@ -373,6 +440,19 @@ def main():
             except Failure as f:
                 ctx.violation(case, f.observed, f.expected, f.what)
             ctx.finish()
+        if case.get("sigfork"):
+            d = drv.Driver(ctx.run, b, extra_preload=[os.path.join(drv.BUILD, "libsched.so")], timeout_ms=40000)
+            ctx.count("replay-1", ["replay"], sample=case)
+            ctx.nontrivial.add("replay-2")
+            try:
+                run_sigfork(d, case)
+                print("replay: property holds for this case")
+            except (Inconclusive, Skip) as e:
+                ctx.inconclusive.append(str(e))
+            except Failure as f:
+                ctx.violation(case, f.observed, f.expected, f.what)
+            d.close()
+            ctx.finish()
         d = drv.Driver(ctx.run, builds[case.get("variant", "ts-plain")], extra_preload=[os.path.join(drv.BUILD, "libsched.so")], timeout_ms=40000)
         ctx.count("replay-1", ["replay"], sample=case)
         ctx.nontrivial.add("replay-2")
@@ -405,6 +485,9 @@ def main():
         jobs.append((okind, "XCFG %{cmdline}", 1, False, {"reconf": True, "naux": 1}))
         if not ctx.quick:
             jobs.append((okind, "XCFG %{snoopy_threads} %{cmdline}", 2, False, {"reconf": True, "naux": 2, "variant": "ts-asan"}))
+    # fork() from a signal handler on the calling thread itself, at every event of its call
+    for okind, fmt in [CONFIGS[0], CONFIGS[2]] if ctx.quick else CONFIGS[:5]:
+        jobs.append((okind, fmt, 1, False, {"sigfork": True}))
     jobs.sort(key=lambda j: -len(j[1]))
     if not ctx.quick:
         rng = random.Random(ctx.seed)
